@@ -237,6 +237,11 @@ def run_session(c, shared_ds=None, reuse_universe=False, reuse_signals=False):
         tracked_signal[0] = sigs['momentum']
         if cfg['alpha'][0] == 'volfilter':
             sigs['vol'] = VolatilitySignal(start, universe, list(lbs))
+        dh_session = dh
+        if cfg.get('signals_own_handler') and m['kind'] == 'table':
+            # the signals read a handler of their own (the same market with every price doubled: momentum, price-vs-average and
+            # volatility are scale free, so every decision stays what it was, but the windows must hold the doubled closes)
+            dh = TableDataHandler([[t_, [[a_, p_ * 2.0] for a_, p_ in snap_]] for t_, snap_ in m['rows']])
         if cfg.get('late_signals') and len(sigs) > 1:
             # the collection is built on a mapping that holds one signal; the others are put into the same mapping afterwards
             registry = dict(list(sigs.items())[:1])
@@ -245,6 +250,7 @@ def run_session(c, shared_ds=None, reuse_universe=False, reuse_signals=False):
                 registry[k_] = v_
         else:
             signals = SignalsCollection(sigs, dh)
+        dh = dh_session
         if reuse_signals and 'signals' in LAST:
             # the SignalsCollection OBJECT (and its signals) of the previous session serves this one too
             signals, tracked_signal[0] = LAST['signals']
@@ -509,6 +515,26 @@ def handler(c):
             shutil.rmtree(d1, ignore_errors=True)
             shutil.rmtree(d2, ignore_errors=True)
         return {'first': fresh, 'second': reused, 'address_reused': reused is not fresh}
+    if c.get('mode') == 'resourced':
+        # one handler object serves a session on ANOTHER market first; then its public data_sources list is given the sources of
+        # this session's market and it serves this session: same results as a handler built for this market
+        fresh, _ = run_session(c)
+        c_o = dict(c)
+        c_o['market'] = c['market2']
+        _, ds_o = run_session(c_o)
+        universe = mk_universe(c['cfg']['universe'])
+        try:
+            _, ds_m = csv_handler(c['market'], universe)
+        except Exception as e:
+            return {'first': fresh, 'second': {'init': errname(e)}}
+        if ds_o is None:
+            return {'first': fresh, 'second': fresh}
+        handler_obj = ds_o[1]
+        handler_obj.data_sources = list(ds_m[0])
+        c_m = dict(c)
+        c_m['share_handler'] = True
+        reused, _ = run_session(c_m, shared_ds=(ds_m[0], handler_obj))
+        return {'first': fresh, 'second': reused}
     if c.get('mode') == 'default_after_other':
         c_exp = dict(c)
         c_exp.pop('default_handler', None)
